@@ -40,6 +40,9 @@ class TimingProbe(Probe):
     """C01: relation equations on reported times; implicit predecessor is a deepest channel-sharing node."""
     name = 'C01'
 
+    def __init__(self):
+        self.placed_under = {}    # id(op) -> (op, reference node right after it was added)  [keeps op alive]
+
     def before(self, run, i, cmd):
         self.pre = None
         if cmd[0] == 'op':
@@ -57,12 +60,15 @@ class TimingProbe(Probe):
                 link = o.relation_link
                 ref = getattr(link, '_reference_node', None)
                 if isinstance(link, a.MultiRelationLink):
-                    # latest of the group is the tree parent; depth = 1 + max over refs that are in the graph is an
-                    # upper bound, the parent is one of them: use the reported reference node
-                    try:
-                        ref = link.reference_node
-                    except RecursionError:
-                        ref = None
+                    # the group member that ended latest WHEN THE NODE WAS PLACED is its tree parent (remembered from
+                    # the add for operations added by the program; the latest member can change with the durations)
+                    if id(o) in self.placed_under:
+                        ref = self.placed_under[id(o)][1]
+                    else:
+                        try:
+                            ref = link.reference_node
+                        except RecursionError:
+                            ref = None
                 d = 1 + dep(ref, guard + 1) if (ref is not None and id(ref) in ids) else 1
                 depth[id(o)] = d
                 return d
@@ -93,6 +99,10 @@ class TimingProbe(Probe):
         if cmd[0] == 'op' and self.pre is not None:
             nodes, depth = self.pre
             op = run.handles[-1]
+            try:
+                self.placed_under[id(op)] = (op, op.relation_link.reference_node)
+            except RecursionError:
+                pass
             explicit_in_graph = False
             if self.expect is not None and self.expect[0] is not None:
                 target = self.expect[0]
